@@ -29,7 +29,7 @@ type c03outcome struct {
 }
 
 func c03run(c GCase, memoExpr map[int]bool, memoNT []bool, plain bool) c03outcome {
-	env := gram.NewEnv(c.In)
+	env := gram.NewEnvAt(c.In, c.Before()) // a third of the cases parse a later file of a set
 	gd := gram.NewGuard(env.Base)
 	gd.MaxEvents, gd.MaxCalls, gd.MaxList = 80000, 80000, 100
 	out := c03outcome{counts: map[string]int{}}
